@@ -196,18 +196,27 @@ fn string_payload<'a>(v: &Value<'a>) -> Option<&'a [u8]> {
     }
 }
 
+const QUOTED_ALPHABET: [u8; 6] = [b'\'', b'"', b'a', b';', b'\n', b','];
+
 /// Bound: input length <= 6; longest loop 6 iterations; unwind 8.
 #[kani::proof]
 #[kani::unwind(8)]
-fn k_quoted_string() {
-    const ALPHABET: [u8; 6] = [b'\'', b'"', b'a', b';', b'\n', b','];
-    let (buf, len) = any_input::<6>(&ALPHABET);
+fn k_quoted_string_single() {
+    let (buf, len) = any_input::<6>(&QUOTED_ALPHABET);
     let inp = &buf[..len];
     check(
         single_quoted_string_program_data(inp),
         oracle_quoted(inp, b'\''),
         string_payload,
     );
+}
+
+/// Bound: as `k_quoted_string_single`.
+#[kani::proof]
+#[kani::unwind(8)]
+fn k_quoted_string_double() {
+    let (buf, len) = any_input::<6>(&QUOTED_ALPHABET);
+    let inp = &buf[..len];
     check(
         double_quoted_string_program_data(inp),
         oracle_quoted(inp, b'"'),
@@ -274,6 +283,45 @@ fn run_arguments<'a>(
     parser(input)
 }
 
+/// The 8th, 9th and 10th parameter: accepted.  `arguments` is started with a
+/// list that already holds 7 delivered parameters (the state it is in after 7
+/// passes; it keeps no other state than `args` and the input position), so that
+/// the boundary MAX_ARGS = 10 is reached with 2 jumps back instead of 9.
+///
+/// Bound: one concrete input; 2 jumps back (parameters 9 and 10), the 3rd pass
+/// leaves at the separator; unwind 3 (the unwinding assertion proves that there
+/// is no 3rd jump back).
+#[kani::proof]
+#[kani::unwind(3)]
+#[kani::stub(core::str::from_utf8, ascii_only_from_utf8)]
+fn k_arguments_max_10() {
+    let input: &[u8] = b"8,9,0\n";
+    let mut args: Vec<Value<'_>, MAX_ARGS> = Vec::new();
+    assert!(args.push(Value::Decimal("1")).is_ok());
+    assert!(args.push(Value::Decimal("2")).is_ok());
+    assert!(args.push(Value::Decimal("3")).is_ok());
+    assert!(args.push(Value::Decimal("4")).is_ok());
+    assert!(args.push(Value::Decimal("5")).is_ok());
+    assert!(args.push(Value::Decimal("6")).is_ok());
+    assert!(args.push(Value::Decimal("7")).is_ok());
+    match run_arguments(input, &mut args) {
+        Ok((rest, ())) => assert!(same_slice(rest, &input[input.len() - 1..])),
+        Err(_) => panic!("parameters 8, 9 and 10 must be accepted"),
+    }
+    assert!(MAX_ARGS == 10);
+    assert!(args.len() == 10);
+    assert!(is_decimal_digit(&args[0], b'1'));
+    assert!(is_decimal_digit(&args[1], b'2'));
+    assert!(is_decimal_digit(&args[2], b'3'));
+    assert!(is_decimal_digit(&args[3], b'4'));
+    assert!(is_decimal_digit(&args[4], b'5'));
+    assert!(is_decimal_digit(&args[5], b'6'));
+    assert!(is_decimal_digit(&args[6], b'7'));
+    assert!(is_decimal_digit(&args[7], b'8'));
+    assert!(is_decimal_digit(&args[8], b'9'));
+    assert!(is_decimal_digit(&args[9], b'0'));
+}
+
 /// Exactly MAX_ARGS (10) parameters: accepted, all of them delivered in order,
 /// the terminator is left for the caller.
 ///
@@ -283,6 +331,10 @@ fn run_arguments<'a>(
 /// input; unwind 10 (= 9 jumps back; the unwinding assertion proves that there is
 /// no 10th).  A larger bound only adds spurious passes (see `run_arguments`),
 /// each costs about 90 s of symbolic execution.
+///
+/// NOT in the default set (`"default": false` in harnesses.json): about 170 s on
+/// an idle machine, which is too close to the 300 s limit when 8 harnesses run
+/// in parallel.  `k_arguments_max_10` checks the same boundary cheaply.
 #[kani::proof]
 #[kani::unwind(10)]
 #[kani::stub(core::str::from_utf8, ascii_only_from_utf8)]
@@ -292,7 +344,7 @@ fn run_arguments<'a>(
 #[kani::stub(single_quoted_string_program_data, never_tried)]
 #[kani::stub(double_quoted_string_program_data, never_tried)]
 #[kani::stub(arbitrary_program_data, never_tried)]
-fn k_arguments_max_10() {
+fn k_arguments_direct_10() {
     let input: &[u8] = b"1,2,3,4,5,6,7,8,9,0\n";
     let mut args: Vec<Value<'_>, MAX_ARGS> = Vec::new();
     match run_arguments(input, &mut args) {
